@@ -23,8 +23,8 @@ if TYPE_CHECKING:
 from exabgp.bgp.message import _NOP, EOR, KeepAlive, Message, Notification, Notify, Open, Operational, Update
 from exabgp.bgp.message.direction import Direction
 from exabgp.bgp.message.scheduling import NOP
-from exabgp.bgp.message.open import RouterID, Version
-from exabgp.bgp.message.open.capability import Capabilities, Negotiated
+from exabgp.bgp.message.open import ASN, RouterID, Version
+from exabgp.bgp.message.open.capability import ASN4, Capabilities, Capability, Negotiated
 from exabgp.bgp.message.refresh import RouteRefresh
 from exabgp.bgp.message.update import UpdateCollection
 from exabgp.bgp.message.update.attribute import AttributeCollection
@@ -379,16 +379,25 @@ class Protocol:
         if self.neighbor.session.local_as:
             local_as = self.neighbor.session.local_as
         elif self.negotiated.received_open:
-            local_as = self.negotiated.received_open.asn
+            # local-as auto: we take the AS of the peer - its true one, which only the 4-byte AS
+            # capability carries when it does not fit the 2-byte field of the OPEN
+            received = self.negotiated.received_open
+            asn4 = received.capabilities.get(Capability.CODE.FOUR_BYTES_ASN)
+            local_as = ASN(int(asn4)) if asn4 is not None else received.asn
         else:
             raise RuntimeError('no ASN available for the OPEN message')
+
+        capabilities = Capabilities().new(self.neighbor, self.peer._restarted)
+        if Capability.CODE.FOUR_BYTES_ASN in capabilities:
+            # the capability carries the AS this OPEN is sent with (not the unset one of local-as auto)
+            capabilities[Capability.CODE.FOUR_BYTES_ASN] = ASN4(local_as)
 
         sent_open = Open.make_open(
             Version(4),
             local_as,
             self.neighbor.hold_time,
             self.neighbor.session.router_id,
-            Capabilities().new(self.neighbor, self.peer._restarted),
+            capabilities,
         )
 
         # we do not buffer open message in purpose
